@@ -117,6 +117,7 @@ type Checker struct {
 	Deadline time.Time
 
 	mu          sync.Mutex
+	excl        sync.RWMutex
 	kf          []KFEntry
 	kfStats     map[string]*kfStat
 	evals       int64
@@ -179,7 +180,9 @@ func (c *Checker) Expired() bool {
 // Case evaluates one case. run returns nil when the property held. On violation the case is
 // re-executed 4 more times; only a 5/5 failure is a violation (else FLAKY harness error).
 func (c *Checker) Case(info CaseInfo, run func() *Violation) {
+	c.excl.RLock()
 	v := run()
+	c.excl.RUnlock()
 	atomic.AddInt64(&c.evals, 1)
 	kind := "ok"
 	if v != nil && strings.HasPrefix(v.Kind, "ok") {
@@ -188,17 +191,41 @@ func (c *Checker) Case(info CaseInfo, run func() *Violation) {
 	}
 	if v != nil {
 		kind = v.Kind
+		// re-execute 4 more times with every other worker paused (no concurrent library calls)
+		c.excl.Lock()
+		var serial []*Violation
 		for i := 0; i < 4; i++ {
 			v2 := run()
-			if v2 == nil || v2.Kind != v.Kind {
-				atomic.AddInt64(&c.flaky, 1)
-				c.mu.Lock()
-				fmt.Printf("FLAKY: property=%s case=%s first=%s/%s\n", c.Prop, info.ID, v.Kind, v.Detail)
-				c.mu.Unlock()
-				kind = "flaky"
-				v = nil
-				break
+			if v2 != nil && strings.HasPrefix(v2.Kind, "ok") {
+				v2 = nil
 			}
+			serial = append(serial, v2)
+		}
+		c.excl.Unlock()
+		consistent := true
+		for _, s2 := range serial[1:] {
+			if (s2 == nil) != (serial[0] == nil) || (s2 != nil && s2.Kind != serial[0].Kind) {
+				consistent = false
+			}
+		}
+		switch {
+		case consistent && serial[0] != nil && serial[0].Kind == v.Kind:
+		case consistent && serial[0] != nil:
+			v = serial[0] // deterministic violation; the first (concurrent) run merely showed it differently
+			kind = v.Kind
+		case consistent:
+			// fails only while other operator calls run concurrently in this process: the library
+			// shares mutable state between independent calls
+			v = &Violation{Kind: "concurrent-interference", Replay: v.Replay,
+				Detail: "passes when executed alone but failed while other, independent operator/model calls were running concurrently in other goroutines (shared mutable state in the library): " + v.Kind + ": " + v.Detail}
+			kind = v.Kind
+		default:
+			atomic.AddInt64(&c.flaky, 1)
+			c.mu.Lock()
+			fmt.Printf("FLAKY: property=%s case=%s first=%s/%s\n", c.Prop, info.ID, v.Kind, truncate(v.Detail, 200))
+			c.mu.Unlock()
+			kind = "flaky"
+			v = nil
 		}
 	}
 	c.Record(info, kind, v)
@@ -422,12 +449,12 @@ func (c *Checker) Finish() int {
 	}
 	fmt.Printf("SUMMARY property=%s tier=%s evaluations=%d nontrivial=%d outcomes=%v new_violations=%d known=%d flaky=%d exhaustive=%v wall=%.1fs\n",
 		c.Prop, c.Tier, c.evals, c.nontrivial, c.outcomes, c.newViol, len(ids), c.flaky, !c.Capped, wall)
+	if c.newViol > 0 {
+		return 1
+	}
 	if c.flaky > 0 {
 		fmt.Printf("HARNESS-ERROR: %d flaky cases\n", c.flaky)
 		return 2
-	}
-	if c.newViol > 0 {
-		return 1
 	}
 	return 0
 }
